@@ -816,7 +816,15 @@ def gen_InOut():
     write("InOut", text, "magpylib/_src/fields/field_wrap_BH.py:getBH_level1, field_BH_tetrahedron.py, field_BH_triangularmesh.py, utility.get_registered_sources (AST + reflection)")
 
 
-GENERATORS = {"KernTrace": gen_KernTrace, "StyleTemp": gen_StyleTemp, "Const": gen_Const, "Units": gen_Units, "Defaults": gen_Defaults, "StyleSchema": gen_StyleSchema, "Attr": gen_Attr, "PathPad": gen_PathPad, "Exits": gen_Exits, "Ndim": gen_Ndim, "Tol": gen_Tol, "CylSegGen": gen_CylSegGen, "ExcSync": gen_ExcSync, "InOut": gen_InOut}
+def gen_AbsLen():
+    """absolute-length constructs (rounding, isclose/allclose, atol=, comparisons of non-integer expressions with non-zero literals, fractional float
+    literals) in the pose machinery and marshalling sources — scanner and classification table in translate/abslen.py (C12, Props/C12b)"""
+    import abslen
+
+    write("AbsLen", abslen.lean_text(abslen.scan(REPO)), "magpylib/_src/obj_classes/class_BaseTransform.py, class_BaseGeo.py, class_Collection.py, utility.py, fields/field_wrap_BH.py (AST scan)")
+
+
+GENERATORS = {"AbsLen": gen_AbsLen, "KernTrace": gen_KernTrace, "StyleTemp": gen_StyleTemp, "Const": gen_Const, "Units": gen_Units, "Defaults": gen_Defaults, "StyleSchema": gen_StyleSchema, "Attr": gen_Attr, "PathPad": gen_PathPad, "Exits": gen_Exits, "Ndim": gen_Ndim, "Tol": gen_Tol, "CylSegGen": gen_CylSegGen, "ExcSync": gen_ExcSync, "InOut": gen_InOut}
 
 
 def main():
